@@ -3,7 +3,7 @@ from . import shared as S
 from . import dumpside as D
 
 META = {
-    'claim_added': "Also decided: enum members by name / str() for string-likes and paths; no write to PyYAML's alias bookkeeping; floats written by Node.set_value/set_attribute are spelt by PyYAML's representer (else the dump carries !!float tags).",
+    'claim_added': "Also decided: enum members by name / str() for string-likes and paths; no write to PyYAML's alias bookkeeping; floats written by Node.set_value/set_attribute are spelt by PyYAML's representer (else the dump carries !!float tags). Round 3: the dumping side leaves PyYAML's implicit resolvers alone and overrides no further PyYAML method (R06.10); string-like means exactly str / UserString / String (R06.11).",
     'level': 'other',
     'technique': 'static: constant-folded tag arguments of every node-constructing call; argument position of sort_keys '
                  'resolved against PyYAML\'s signature; shape of the attribute-pair construction; write-effect analysis '
